@@ -142,6 +142,43 @@ def runTHist (s : St) : List TEv → List String
     let (s', o) := tstep s e
     s!"{"+".intercalate (o.map showTObs)}/{showTable s'.senders}/{s'.sendSeq}" :: runTHist s' es
 
+def showSendOut (ds : Option DS) : SendOut → String
+  | .plain _ => "plain"
+  | .secured f' => s!"secured {hex f'.payload.bytes} {match ds with | some d => d.sendSeq | none => 0}"
+  | .dsError _ => "dserror"
+  | .escape e => s!"raised {excName e}"
+
+/-- `i;<keys|none>;<senders>;<clockSeq>` · `r;<ctrl>;<src>;<dst>;<tpci>;<N|P|S>;<payload>;<inner>` ·
+`s;<ctrl>;<src>;<dst>;<tpci>;<N|P|S>;<payload>` -/
+def parseHEv (s : String) : Option HEv :=
+  match s.splitOn ";" with
+  | ["i", keys, senders, clock] => do
+    let c ← clock.toNat?
+    if keys == "none" then pure (.init none c) else
+    let k ← parseKeys keys
+    let t ← parseTable senders
+    pure (.init (some (k, t)) c)
+  | ["r", ctrl, src, dst, tpci, kind, body, inner] => do
+    let p ← parsePayload kind body
+    pure (.recv (Frame.ofCtrl (← ctrl.toNat?) (← src.toNat?) (← dst.toNat?) (← tpci.toNat?) p) (bit inner))
+  | ["s", ctrl, src, dst, tpci, kind, body] => do
+    let p ← parsePayload kind body
+    pure (.send (Frame.ofCtrl (← ctrl.toNat?) (← src.toNat?) (← dst.toNat?) (← tpci.toNat?) p))
+  | _ => none
+
+def showHObs (ds : Option DS) : HObs → String
+  | .inited on => s!"init {if on then "on" else "off"}"
+  | .initError => "init error"
+  | .route r => s!"{showRoute r} {match ds with | some d => showTable d.senders | none => "-"}"
+  | .sendRes o => showSendOut ds o
+
+def runKHist (s : Option DS) : List HEv → List String
+  | [] => []
+  | e :: es =>
+    let E := aesFor ((keysOf s).head?.map Prod.snd |>.getD [])
+    let (s', o) := hstep E s e
+    ", ".intercalate (o.map (showHObs s')) :: runKHist s' es
+
 def runHist (s : St) : List Ev → List String
   | [] => []
   | e :: es =>
@@ -156,8 +193,21 @@ def runHist (s : St) : List Ev → List String
   `recv   <keys|none> <senders> <sendSeq> <ctrl> <src> <dst> <tpci> <N|P|S> <payload> <inner>` → `<route> <senders'>`
   `out    <keys> <sendSeq> <ctrl> <src> <dst> <tpci> <N|P|S> <payload>` → `secured <apdu> <sendSeq'>` | `plain <sendSeq'>` | …
   `hist   <senders> <sendSeq> <ev>…` → `<obs>/<senders>/<sendSeq>` per event
+  `khist  <hev>…` → one record per event, joined by ` ; ` (one CEMIHandler across data_secure_init calls)
   `thist  <senders> <sendSeq> <tev>…` → `<obs>+<if:verdict>/<senders>/<sendSeq>` per event (send_telegram layer) -/
 def handle : List String → String
+  | "khist" :: evs =>
+    match evs.mapM parseHEv with
+    | some evs => " ; ".intercalate (runKHist none evs)
+    | none => "bad-op"
+  | "thist" :: senders :: sendSeq :: evs =>
+    match parseTable senders, sendSeq.toNat?, evs.mapM parseTEv with
+    | some senders, some sendSeq, some evs => " ".intercalate (runTHist ⟨senders, sendSeq⟩ evs)
+    | _, _, _ => "bad-op"
+  | "hist" :: senders :: sendSeq :: evs =>
+    match parseTable senders, sendSeq.toNat?, evs.mapM parseEv with
+    | some senders, some sendSeq, some evs => " ".intercalate (runHist ⟨senders, sendSeq⟩ evs) |>.replace "  " " "
+    | _, _, _ => "bad-op"
   | [op, key, scf, seq, src, dst, group, eff, tpci, apdu] =>
     if op == "secure" || op == "spec" then
       match bytesOfHex? key, scf.toNat?, seq.toNat?, src.toNat?, dst.toNat?, eff.toNat?, tpci.toNat?,
@@ -208,14 +258,6 @@ def handle : List String → String
       | (ds', .dsError _) => s!"dserror {ds'.sendSeq}"
       | (ds', .escape e) => s!"raised {excName e} {ds'.sendSeq}"
     | _, _, _, _, _, _, _ => "bad-op"
-  | "thist" :: senders :: sendSeq :: evs =>
-    match parseTable senders, sendSeq.toNat?, evs.mapM parseTEv with
-    | some senders, some sendSeq, some evs => " ".intercalate (runTHist ⟨senders, sendSeq⟩ evs)
-    | _, _, _ => "bad-op"
-  | "hist" :: senders :: sendSeq :: evs =>
-    match parseTable senders, sendSeq.toNat?, evs.mapM parseEv with
-    | some senders, some sendSeq, some evs => " ".intercalate (runHist ⟨senders, sendSeq⟩ evs) |>.replace "  " " "
-    | _, _, _ => "bad-op"
   | _ => "bad-op"
 
 -- DRIVER: aes => XknxVerif.DataSecure.Driver.handleAes
